@@ -7,7 +7,7 @@ ALLOWED_AXIOMS = {"Classical_Prop.classic", "ClassicalDedekindReals.sig_not_dec"
                   "ClassicalDedekindReals.sig_forall_dec",
                   "FunctionalExtensionality.functional_extensionality_dep"}
 MANIFEST = {
-    "text": "Coq model of the query compiler and executor (Model/Query.v: literal typing after the compared operand incl. the i64/u64/f64 cascade and correctly rounded decimal literals via Flocq, type checks, BETWEEN / NOT BETWEEN, LAG, projection names) and of query subscriptions on the broker core (Model/QueryRun.v: trigger, values visible to the subscriber, LAG bookkeeping, housekeeping). Theorems: every accepted query is well-typed and fully resolved; constructs outside the subset, wildcards, ignored clauses and unknown signals are refused; the executor's verdict on a condition agrees with its SQL reading over the exact numbers (C13's comparison theorems lifted through AND/OR/NOT/BETWEEN; exact when no float equality is involved, within the broker's float tolerance otherwise); a response goes out exactly when a referenced signal's datapoint changed and the condition holds, with one field per selected expression under its alias / signal name / field_i; the query sees only what its subscriber may read; LAG reads the datapoint before the change. Tied to the code on every run: generated queries (syntax tree + SQL text) x update histories run against the real subscribe_query / update_entries and the extracted model, every response diffed; an independent three-valued (SQL NULL for comparisons with a signal that has no value) reference evaluator over exact rationals judges the implementation's own trace; free-text queries must be answered without panic.",
+    "text": "Coq model of the query compiler and executor (Model/Query.v: literal typing after the compared operand incl. the i64/u64/f64 cascade and correctly rounded decimal literals via Flocq, type checks, BETWEEN / NOT BETWEEN, LAG, projection names) and of query subscriptions on the broker core (Model/QueryRun.v: trigger, values visible to the subscriber, LAG bookkeeping, housekeeping). Theorems: every accepted query is well-typed and fully resolved; constructs outside the subset, wildcards, ignored clauses and unknown signals are refused; the executor's verdict on a condition agrees with its SQL reading over the exact numbers (C13's comparison theorems lifted through AND/OR/NOT/BETWEEN; exact when no float equality is involved, within the broker's float tolerance otherwise); a response goes out exactly when a referenced signal's datapoint changed and the condition holds, with one field per selected expression under its alias / signal name / field_i; the query sees only what its subscriber may read; LAG reads the datapoint before the change. Tied to the code on every run: generated queries (syntax tree + SQL text) x update histories run against the real subscribe_query / update_entries and the extracted model, every response diffed; an independent three-valued (SQL NULL for comparisons with a signal that has no value) reference evaluator over exact rationals judges the implementation's own trace; free-text queries must be answered without panic. Also: subscriptions opened through sdv Broker::Subscribe (responses compared as maps); a subquery used as an operand is refused (c12_subquery_operand_refused; finding F29, fixed); cross-type signal comparisons at 2^24 / 2^53 / 2^63 with answered declinable comparisons judged against the exact truth value; the LAG catch-up rule of doc/QUERY.md in the reference oracle.",
     "note": "Trusted: Coq kernel; Flocq's 4 standard-library axioms (Print Assumptions); extraction + OCaml driver (vm_compute cross-check each run); harness/src/fam_hist.rs; vp/query.py (printer, reference evaluator). Modelled, not verified: SQL text -> syntax tree is sqlparser's (the generator emits both; the pair is validated only by the correspondence); Rust's str::parse::<f32/f64> is assumed correctly rounded and is modelled only for digits[.digits] literals in Clinger's exact class (others are not generated); subqueries (undocumented extension) are not modelled; the bounded mpsc channel of a query subscription (capacity 10, send awaits) is drained after every operation - a subscriber that stops reading blocks writers, see DESIGN.md.",
 }
 RULE = ("seeded cases: 4-9 registered signals over every scalar data type (plus one array), 1-3 principals (some "
